@@ -31,6 +31,8 @@ pub(crate) mod custom;
 #[cfg(not(wasm_browser))]
 mod ip;
 mod relay;
+#[cfg(iroh_verif)]
+pub(crate) use self::relay::verif_c17;
 
 use custom::{CustomEndpoint, CustomSender, CustomTransport};
 
